@@ -347,3 +347,166 @@ theorem max_size_counts_inputs_counterexample :
   decide
 
 end Cotengra.C20
+
+namespace Cotengra.C20
+open Cotengra Cotengra.Net Cotengra.Legs Cotengra.HGu
+
+/-! ## the whole loop of `compress` -/
+
+theorem removeEdges_getEdge (dels : List Ix) (h : HG) (e : Ix) (he : e ∉ dels) :
+    (dels.foldl HG.removeEdge h).getEdge e = h.getEdge e := by
+  induction dels generalizing h with
+  | nil => rfl
+  | cons d t ih =>
+    simp only [List.foldl_cons]
+    have hne : ¬ d = e := fun e' => he (e' ▸ List.mem_cons_self)
+    rw [ih _ (fun hm => he (List.mem_cons_of_mem _ hm))]
+    show (AL.get? (AL.del h.edges d) e).getD [] = _
+    rw [AL.get?_del, if_neg hne]; rfl
+
+theorem removeEdges_get? (dels : List Ix) (h : HG) (k : Nat) (inds : List Ix)
+    (hN : AL.get? h.nodes k = some inds)
+    (hcons : ∀ e ∈ dels, (k ∈ h.getEdge e ↔ e ∈ inds)) (hnd : dels.Nodup) :
+    AL.get? (dels.foldl HG.removeEdge h).nodes k = some (inds.filter (fun x => !dels.contains x)) := by
+  have hg := removeEdges_getNode dels h k inds hN hcons hnd
+  -- the key stays present: `remove_edge` maps over the node dictionary
+  have hpres : ∀ (dels : List Ix) (h : HG), AL.has h.nodes k = true →
+      AL.has (dels.foldl HG.removeEdge h).nodes k = true := by
+    intro dels
+    induction dels with
+    | nil => intro h hh; exact hh
+    | cons d t ih =>
+      intro h hh
+      simp only [List.foldl_cons]
+      apply ih
+      obtain ⟨v, hv⟩ := (AL.has_iff _ _).1 hh
+      have := get?_map_cond h.nodes (fun x => (h.getEdge d).contains x) (fun l => l.filter (· != d)) k v hv
+      exact (AL.has_iff _ _).2 ⟨_, this⟩
+  obtain ⟨v, hv⟩ := (AL.has_iff _ _).1 (hpres dels h ((AL.has_iff _ _).2 ⟨inds, hN⟩))
+  unfold HG.getNode at hg
+  rw [hv] at hg
+  rw [hv]; exact congrArg some hg
+
+theorem mergeGroup_none (chi : Nat) (h : HG) (g : List Nat × List Ix) (k : Nat)
+    (hN : AL.get? h.nodes k = none) : AL.get? (HG.mergeGroup chi h g).nodes k = none := by
+  have hpres : ∀ (dels : List Ix) (h : HG), AL.get? h.nodes k = none →
+      AL.get? (dels.foldl HG.removeEdge h).nodes k = none := by
+    intro dels
+    induction dels with
+    | nil => intro h hh; exact hh
+    | cons d t ih =>
+      intro h hh
+      simp only [List.foldl_cons]
+      apply ih
+      show AL.get? (h.nodes.map _) k = none
+      have : ∀ (l : List (Nat × List Ix)), AL.get? l k = none →
+          AL.get? (l.map (fun (p : Nat × List Ix) =>
+            if (h.getEdge d).contains p.1 then (p.1, p.2.filter (· != d)) else (p.1, p.2))) k = none := by
+        intro l
+        induction l with
+        | nil => intro _; rfl
+        | cons p tl ihl =>
+          intro hl
+          obtain ⟨k', w⟩ := p
+          by_cases hk : k' = k
+          · subst hk; simp [AL.get?] at hl
+          · simp only [AL.get?, hk, if_false] at hl
+            rw [List.map_cons]
+            by_cases hc : (h.getEdge d).contains k' = true
+            · rw [if_pos hc]; simp only [AL.get?, hk, if_false]; exact ihl hl
+            · rw [if_neg hc]; simp only [AL.get?, hk, if_false]; exact ihl hl
+      exact this h.nodes hh
+  unfold HG.mergeGroup
+  split
+  · exact hpres _ h hN
+  · exact hN
+
+/-- what the loop needs to know about node `k` and the groups still to be merged -/
+structure Loc (h : HG) (gs : List (List Nat × List Ix)) (k : Nat) (inds : List Ix) : Prop where
+  node : AL.get? h.nodes k = some inds
+  nd : inds.Nodup
+  inc : ∀ g ∈ gs, ∀ e ∈ g.2, (k ∈ h.getEdge e ↔ e ∈ inds)
+  par : ∀ g ∈ gs, ∀ e ∈ g.2, ∀ e' ∈ g.2, (k ∈ h.getEdge e ↔ k ∈ h.getEdge e')
+  disj : (gs.flatMap (·.2)).Nodup
+
+/-- **compress_groups_nodeSize.** The loop of `HyperGraph.compress` over groups of parallel
+    edges (pairwise disjoint, every group's product at most `chi`): the size of every node is the
+    same afterwards. -/
+theorem compress_groups_nodeSize (chi : Nat) (gs : List (List Nat × List Ix)) (h : HG) (k : Nat)
+    (inds : List Ix) (loc : Loc h gs k inds) (hbig : ∀ g ∈ gs, h.edgesSize g.2 ≤ chi) :
+    (gs.foldl (HG.mergeGroup chi) h).nodeSize k = h.nodeSize k := by
+  induction gs generalizing h inds with
+  | nil => rfl
+  | cons g rest ih =>
+    simp only [List.foldl_cons]
+    have hdis := loc.disj
+    simp only [List.flatMap_cons] at hdis
+    have hgnd : g.2.Nodup := (List.nodup_append.1 hdis).1
+    have hrestnd : (rest.flatMap (·.2)).Nodup := (List.nodup_append.1 hdis).2.1
+    have hsep : ∀ e ∈ g.2, e ∉ rest.flatMap (·.2) := fun e he hm => (List.nodup_append.1 hdis).2.2 e he e hm rfl
+    obtain ⟨S, es⟩ := g
+    -- groups of fewer than two edges are skipped
+    match es, hgnd, hsep, loc, hbig with
+    | [], _, _, loc, hbig =>
+      exact ih h inds ⟨loc.node, loc.nd, fun g hg => loc.inc g (List.mem_cons_of_mem _ hg),
+        fun g hg => loc.par g (List.mem_cons_of_mem _ hg), hrestnd⟩ (fun g hg => hbig g (List.mem_cons_of_mem _ hg))
+    | [_], _, _, loc, hbig =>
+      exact ih h inds ⟨loc.node, loc.nd, fun g hg => loc.inc g (List.mem_cons_of_mem _ hg),
+        fun g hg => loc.par g (List.mem_cons_of_mem _ hg), hrestnd⟩ (fun g hg => hbig g (List.mem_cons_of_mem _ hg))
+    | keep :: d :: ds, hgnd, hsep, loc, hbig =>
+      have hmem : (S, keep :: d :: ds) ∈ (S, keep :: d :: ds) :: rest := List.mem_cons_self
+      have hcons : ∀ e ∈ d :: ds, (k ∈ h.getEdge e ↔ e ∈ inds) :=
+        fun e he => loc.inc _ hmem e (List.mem_cons_of_mem _ he)
+      have hinc : (∀ e ∈ keep :: d :: ds, e ∈ inds) ∨ (∀ e ∈ keep :: d :: ds, e ∉ inds) := by
+        by_cases hk : keep ∈ inds
+        · left; intro e he
+          exact (loc.inc _ hmem e he).1 ((loc.par _ hmem keep List.mem_cons_self e he).1
+            ((loc.inc _ hmem keep List.mem_cons_self).2 hk))
+        · right; intro e he hin
+          exact hk ((loc.inc _ hmem keep List.mem_cons_self).1
+            ((loc.par _ hmem e he keep List.mem_cons_self).1 ((loc.inc _ hmem e he).2 hin)))
+      have hstep := compress_preserves_product h chi S keep d ds k inds loc.node loc.nd hgnd hcons hinc
+        (hbig _ hmem)
+      -- the state after this merge, as seen by the remaining groups
+      have hdnd : (d :: ds).Nodup := (List.nodup_cons.1 hgnd).2
+      have hnode' : AL.get? (HG.mergeGroup chi h (S, keep :: d :: ds)).nodes k =
+          some (inds.filter (fun x => !(d :: ds).contains x)) :=
+        removeEdges_get? (d :: ds) h k inds loc.node hcons hdnd
+      have hedge' : ∀ e, e ∉ d :: ds → (HG.mergeGroup chi h (S, keep :: d :: ds)).getEdge e = h.getEdge e :=
+        fun e he => removeEdges_getEdge (d :: ds) h e he
+      have hnotin : ∀ g ∈ rest, ∀ e ∈ g.2, e ∉ keep :: d :: ds := by
+        intro g hg e he hm
+        exact hsep e hm (List.mem_flatMap.2 ⟨g, hg, he⟩)
+      have loc' : Loc (HG.mergeGroup chi h (S, keep :: d :: ds)) rest k
+          (inds.filter (fun x => !(d :: ds).contains x)) := by
+        refine ⟨hnode', loc.nd.filter _, ?_, ?_, hrestnd⟩
+        · intro g hg e he
+          have hne := hnotin g hg e he
+          have hne' : e ∉ d :: ds := fun hm => hne (List.mem_cons_of_mem _ hm)
+          rw [hedge' e hne', loc.inc g (List.mem_cons_of_mem _ hg) e he, List.mem_filter]
+          constructor
+          · intro hi; exact ⟨hi, by simpa using hne'⟩
+          · exact fun hi => hi.1
+        · intro g hg e he e' he'
+          have hne1 : e ∉ d :: ds := fun hm => hnotin g hg e he (List.mem_cons_of_mem _ hm)
+          have hne2 : e' ∉ d :: ds := fun hm => hnotin g hg e' he' (List.mem_cons_of_mem _ hm)
+          rw [hedge' e hne1, hedge' e' hne2]
+          exact loc.par g (List.mem_cons_of_mem _ hg) e he e' he'
+      have hbig' : ∀ g ∈ rest, (HG.mergeGroup chi h (S, keep :: d :: ds)).edgesSize g.2 ≤ chi := by
+        intro g hg
+        have : (HG.mergeGroup chi h (S, keep :: d :: ds)).edgesSize g.2 = h.edgesSize g.2 := by
+          unfold HG.edgesSize
+          congr 1
+          apply List.map_congr_left
+          intro e he
+          have hne : ¬ keep = e := fun e' => hnotin g hg e he (e' ▸ List.mem_cons_self)
+          show (HG.mergeGroup chi h (S, keep :: d :: ds)).size e = h.size e
+          have hm : (HG.mergeGroup chi h (S, keep :: d :: ds)) =
+              { ((d :: ds).foldl HG.removeEdge h) with
+                sizeDict := AL.set ((d :: ds).foldl HG.removeEdge h).sizeDict keep
+                  (min (h.edgesSize (keep :: d :: ds)) chi) } := rfl
+          rw [hm, HG.size_set, if_neg hne, HG.removeEdges_size]
+        rw [this]; exact hbig g (List.mem_cons_of_mem _ hg)
+      rw [ih _ _ loc' hbig', hstep]
+
+end Cotengra.C20
